@@ -159,6 +159,21 @@ func init() {
 		}
 		return e.concSlice(b)
 	})
+	reg("And", func(fr *frame, a []Value) Value {
+		var cs []*Term
+		for _, v := range a[0].([]Value) {
+			cs = append(cs, v.(*Term))
+		}
+		return fr.e.tb.And(cs...)
+	})
+	reg("Or", func(fr *frame, a []Value) Value {
+		var cs []*Term
+		for _, v := range a[0].([]Value) {
+			cs = append(cs, v.(*Term))
+		}
+		return fr.e.tb.Or(cs...)
+	})
+	reg("Implies", func(fr *frame, a []Value) Value { return fr.e.tb.Implies(a[0].(*Term), a[1].(*Term)) })
 	reg("Symbolic", func(fr *frame, a []Value) Value { return fr.e.tb.T })
 	reg("Begin", func(fr *frame, a []Value) Value { fr.e.path.writeMark = len(fr.e.undo); return nil })
 	reg("Observe", func(fr *frame, a []Value) Value { return nil })
@@ -168,13 +183,28 @@ func init() {
 		x, y := a[0].(SliceVal), a[1].(SliceVal)
 		label := mustStr(a[2])
 		e.vAssert(e.tb.Eq(x.Len, y.Len), label+" (length)", fr)
+		if x.Obj == nil || y.Obj == nil {
+			return nil
+		}
+		n := x.Len
+		if !n.IsConst() {
+			n = y.Len
+		}
+		if n.IsConst() && n.C <= 8192 {
+			// concrete length: compare position by position (most equalities fold away)
+			var cs []*Term
+			for i := uint64(0); i < n.C; i++ {
+				ci := e.tb.Const(64, i)
+				cs = append(cs, e.tb.Eq(e.sliceAt(x, ci), e.sliceAt(y, ci)))
+			}
+			e.vAssert(e.tb.And(cs...), label+" (content)", fr)
+			return nil
+		}
 		// content at a skolem index
 		e.path.uniq++
 		k := e.tb.Var(fmt.Sprintf("k!%s!%d", label, e.path.uniq), 64)
-		if x.Obj != nil && y.Obj != nil {
-			c := e.tb.Or(e.tb.BNot(e.tb.Ult(k, x.Len)), e.tb.Eq(e.sliceAt(x, k), e.sliceAt(y, k)))
-			e.vAssertSk(c, label+" (content)", fr, k)
-		}
+		c := e.tb.Or(e.tb.BNot(e.tb.Ult(k, x.Len)), e.tb.Eq(e.sliceAt(x, k), e.sliceAt(y, k)))
+		e.vAssertSk(c, label+" (content)", fr, k)
 		return nil
 	})
 }
@@ -184,6 +214,7 @@ func (e *Eng) vAssert(c *Term, label string, fr *frame) { e.vAssertSk(c, label, 
 // vAssertSk checks an assertion; sk (optional) is a skolem index reported with the finding.
 func (e *Eng) vAssertSk(c *Term, label string, fr *frame, sk *Term) {
 	p := e.path
+	c = p.binds.rewrite(c, e.tb)
 	if c.IsTrue() {
 		return
 	}
